@@ -99,3 +99,13 @@ claim(
     TB, "per-arm field-access pairing, route coverage of the visibility lookup, who-may-write + balanced-pair path rule",
     "DESIGN.md §2 C17",
 )
+claim(
+    "C14", "other",
+    "Writer/reader agreement between CST parser and CST printer: explicit dispatch on every SyntaxKind; kinds printed by bare token "
+    "concatenation must be kinds the parser only builds from one token (else adjacent tokens are glued: known finding F11); every "
+    "comment-kind test in the printer names both comment kinds; tokens are emitted through the single function that also emits both "
+    "trivia maps; the rendered text is returned without textual post-processing. AST equality, idempotence and width behaviour for "
+    "concrete inputs are not decided.",
+    TB, "parser/printer table agreement computed from both sides' MIR (node-construction shapes vs. dispatch arms), sibling-predicate agreement, taint-style no-rewrite rule",
+    "DESIGN.md §2 C14",
+)
